@@ -108,128 +108,12 @@ def r06_life(repo, sink):
                  (fin, "_finalize_components"), (step, "_update_recursive")):
         if f is None:
             raise AnalysisError(f"Composition.{n} not found")
-    n_checks = 0
-
-    def followed(f, call, want, tag):
-        """`call` is followed on every normal path by _check_status(<same receiver>, list ⊇ want)."""
-        nonlocal n_checks
-        cfg = CFG(f.node)
-        recv = U(call.func.value)
-        cn = cfg.node_of(call)
-        good = None
-        for chk in _check_status_calls(f.node):
-            if chk.args and U(chk.args[0]) == recv and cfg.postdominates(cfg.node_of(chk), cn) and cfg.node_of(chk) is not cn:
-                # nothing else of the life cycle in between
-                good = chk
-                break
-        if good is None:
-            sink.bad("R06", f"status-checked-after:{tag}", f, f"no _check_status on every path after {recv}.{call_name(call)}()")
-            return
-        n_checks += 1
-        lst = _listed(good)
-        sink.check(bool(lst) and want <= lst, "R06", f"status-checked-after:{tag}", f,
-                   ok=f"{call_name(call)}() is followed by _check_status {sorted(lst)}",
-                   bad=f"_check_status after {call_name(call)}() accepts {sorted(lst)}, must include {sorted(want)}")
-
-    # initialize
-    ic = _comp_calls(init.node, "initialize")
-    if _site_check(repo, sink, comp, "initialize", init, ic, "call-site:initialize"):
-        followed(init, ic[0], {"INITIALIZED"}, "initialize")
-        cfg = CFG(init.node)
-        pre = [c for c in _check_status_calls(init.node) if "CREATED" in _listed(c)]
-        sink.check(bool(pre) and cfg.dominates_stmt(pre[0], ic[0]), "R06", "created-before-initialize", init,
-                   ok="components are checked to be CREATED before initialize()", bad="no CREATED check before initialize()")
-    # connect / validate
-    vc = _comp_calls(conn.node, "validate")
-    if not _site_check(repo, sink, comp, "validate", conn, vc, "call-site:validate"):
-        vc = []
-    cfgc = CFG(conn.node)
-    vcomp = [c for c in calls(conn.node, "_validate_composition")]
-    ccall = [c for c in calls(conn.node, "_connect_components")]
-    col = [c for c in calls(conn.node, "_collect_adapters")]
-    if not (vc and vcomp and ccall and col):
-        missing = [n for n, l in (("_collect_adapters", col), ("_validate_composition", vcomp), ("_connect_components", ccall)) if not l
-                   and not _classwide(repo, comp, n, self_call=True)]
-        if missing:
-            sink.bad("R06", "connect-phases", conn, f"{missing} is never called: the connect phase skips it")
-        else:
-            sink.unknown("R06", "connect-phases", conn, "connect() does not itself call _collect_adapters/_validate_composition/_connect_components/validate: layout not recognised")
-    else:
-        followed(conn, vc[0], {"VALIDATED"}, "validate")
-        order = [col[0], vcomp[0], ccall[0], vc[0]]
-        names = ["_collect_adapters", "_validate_composition", "_connect_components", "comp.validate"]
-        for (a, an), (b, bn) in zip(zip(order, names), zip(order[1:], names[1:])):
-            sink.check(cfgc.dominates_stmt(a, b), "R06", f"order:{an}<{bn}", conn,
-                       ok=f"{an} dominates {bn}", bad=f"{bn} can run without {an} having run")
-        # connected flag: raise if already connected; set at the end
-        flag_sets = [n for n in fn_walk(conn.node) if isinstance(n, ast.Assign) and any(self_attr(t) == "_is_connected" for t in n.targets)
-                     and isinstance(n.value, ast.Constant) and n.value.value is True]
-        sink.check(bool(flag_sets) and cfgc.dominates_stmt(vc[0], flag_sets[0]), "R06", "connected-flag", conn,
-                   ok="_is_connected is set after the validate phase", bad="_is_connected is not set after validation")
-        guard = [n for n in fn_walk(conn.node) if isinstance(n, ast.If) and "_is_connected" in U(n.test)
-                 and any(isinstance(x, ast.Raise) for x in n.body)]
-        sink.check(bool(guard) and cfgc.dominates(cfgc.node_of(guard[0]), cfgc.node_of(col[0])), "R06", "connect-once", conn,
-                   ok="a second connect() is refused", bad="connect() can run twice (components connected / validated twice)")
-    # component connect in _connect_components
-    cn = _comp_calls(cc.node, "connect")
-    if _site_check(repo, sink, comp, "connect", cc, cn, "call-site:connect"):
-        followed(cc, cn[0], {"CONNECTING", "CONNECTING_IDLE", "CONNECTED"}, "connect")
-    # run: connect before loop, finalize after
-    cfgr = CFG(run.node)
-    loops = [n for n in fn_walk(run.node) if isinstance(n, ast.While)]
-    if len(loops) != 1:
-        raise AnalysisError("Composition.run: expected exactly one while loop")
-    loop = cfgr.node_of(loops[0])
-    sc = [c for c in calls(run.node, "connect") if isinstance(c.func, ast.Attribute) and self_attr(c.func)]
-    guard = [n for n in fn_walk(run.node) if isinstance(n, ast.If) and "_is_connected" in U(n.test)]
-    ok = bool(sc) and bool(guard) and cfgr.dominates(cfgr.node_of(guard[0]), loop) and any(sc[0] is x for x in ast.walk(guard[0]))
-    if ok:
-        norm = U(guard[0].test).replace(" ", "")
-        ok = norm in ("notself._is_connected", "self._is_connectedisFalse", "self._is_connected==False")
-    sink.check(ok, "R06", "run-connects-first", run, ok="run() connects (if not yet connected) before the scheduling loop",
-               bad="the scheduling loop can start on an unconnected composition")
-    fcs = [c for c in calls(run.node, "_finalize_components")]
-    fco = [c for c in calls(run.node, "_finalize_composition")]
-    for lst, nm in ((fcs, "_finalize_components"), (fco, "_finalize_composition")):
-        sink.check(len(lst) == 1 and cfgr.postdominates(cfgr.node_of(lst[0]), loop) and not cfgr.in_loop(cfgr.node_of(lst[0]))
-                   and cfgr.postdominates(cfgr.node_of(lst[0]), cfgr.entry),
-                   "R06", f"run-ends-with:{nm}", run,
-                   ok=f"{nm} lies on every normal path through run() and runs once",
-                   bad=f"a normal exit of run() skips {nm} (or it runs repeatedly): components and adapters stay unfinalized, e.g. for a "
-                       "composition without time components")
-    # update: status checked after the step in run()
-    ur = [c for c in calls(run.node, "_update_recursive")]
-    if ur:
-        st = ur[0]
-        while not isinstance(st, ast.stmt):
-            st = st._parent
-        var = st.targets[0].id if isinstance(st, ast.Assign) and isinstance(st.targets[0], ast.Name) else None
-        chk = [c for c in _check_status_calls(run.node) if c.args and U(c.args[0]) == var]
-        okc = bool(chk) and cfgr.postdominates(cfgr.node_of(chk[0]), cfgr.node_of(ur[0]))
-        n_checks += int(okc)
-        sink.check(okc, "R06", "status-checked-after:update", run,
-                   ok=f"updated component's status is checked {sorted(_listed(chk[0])) if chk else ''}",
-                   bad="status of the updated component is not checked after the step")
-    # finalize
-    fc = _comp_calls(fin.node, "finalize")
-    comp_fin = [c for c in fc if _loop_iter(c) and "_components" in _loop_iter(c)]
-    ada_fin = [c for c in fc if _loop_iter(c) and "_adapters" in _loop_iter(c)]
-    if len(comp_fin) == 1 and len(ada_fin) == 1 and len(fc) == 2:
-        sink.ok("R06", "call-site:finalize", fin, "finalize(): one call site for components, one for adapters")
-    elif not fc:
-        sink.bad("R06", "call-site:finalize", fin, "_finalize_components finalizes nothing")
-    else:
-        sink.ok("R06", "call-site:finalize", fin, "finalize call sites not in the known shape; decided by the abstract run (finalize-once)")
+    # Order, multiplicity and status checks of the life-cycle phases: decided on the trace of an abstract run of the real
+    # constructor, connect() and run() over scripted components (rules/lifetrace.py) - independent of how the phases are
+    # spread over helper methods.
+    from . import lifetrace
+    lifetrace.r06t_trace(repo, sink)
     _finalize_once(repo, sink, comp, fin)
-    if comp_fin:
-        followed(fin, comp_fin[0], {"FINALIZED"}, "finalize")
-        cfgf = CFG(fin.node)
-        pre = [c for c in _check_status_calls(fin.node) if cfgf.dominates(cfgf.node_of(c), cfgf.node_of(comp_fin[0]))
-               and cfgf.node_of(c) is not cfgf.node_of(comp_fin[0]) and "FINALIZED" not in _listed(c)]
-        n_checks += int(bool(pre))
-        sink.check(bool(pre), "R06", "status-checked-before:finalize", fin,
-                   ok=f"status is checked before finalize {sorted(_listed(pre[0])) if pre else ''}",
-                   bad="component status is not checked before finalize()")
     # collection of adapters (set semantics, both directions, recursion): decided by the abstract run above (finalize-once)
     # who-may-call: life-cycle methods of components are driven only by the Composition
     for m in ("initialize", "validate", "finalize"):
@@ -245,7 +129,6 @@ def r06_life(repo, sink):
                     foreign.append(f"{mod.relpath}:{n.lineno} {r}.{m}()")
         sink.check(not foreign, "R06", f"who-may-call:{m}", None, ok=f"no component.{m}() outside the driver",
                    bad=f"component.{m}() called outside the driver: {foreign}")
-    sink.floor("R06", "_check_status pairings", n_checks, 6, conn)
     _r06_wrappers(repo, sink)
 
 
